@@ -35,8 +35,12 @@ func verifNewEnv13() *verifEnv13 {
 			var fl []map[string]string
 			for _, k := range e.keys {
 				u := e.srv.URL + "/lists/" + url.PathEscape(k) + ".txt"
-				if k == "" {
-					fl = append(fl, map[string]string{"filterKey": "list_z", "downloadUrl": ""})
+				if rest, ok := strings.CutPrefix(k, "!empty:"); ok {
+					fl = append(fl, map[string]string{"filterKey": rest, "downloadUrl": ""})
+					continue
+				}
+				if rest, ok := strings.CutPrefix(k, "!ftp:"); ok {
+					fl = append(fl, map[string]string{"filterKey": rest, "downloadUrl": "ftp://lists.example/" + rest + ".txt"})
 					continue
 				}
 				fl = append(fl, map[string]string{"filterKey": k, "downloadUrl": u})
